@@ -324,6 +324,11 @@ def run(chk):
     from . import c01
     chk.rule('R8', "tokeniser: the text behind '--key=' is always a value (also for an optional value)", 8)
     c01.r9_value_word_decision(chk, prog, rule='R8')
+    # R9: 'unique data' refuses real duplicates only: the membership test of the fixed-size destinations looks at the
+    # elements stored so far, never at unused (default) elements (shared with C06-R3)
+    from . import c06
+    chk.rule('R9', 'unique-data of fixed-size destinations never refuses a value because of an unused element', 3)
+    c06.r3_unique_prefix(chk, prog, 'R9')
     sub = type(chk)(chk.pid, chk.tier)
     sub._known = []
     c02.r3_canonical_key(sub, prog)
